@@ -41,19 +41,20 @@ func c12Gateway(fs *Facts) {
 		b := c17Plain(f, pc.Body.List)
 		count, lock := -1, -1
 		for i, st := range b {
-			s := f.Str(st)
-			if strings.HasPrefix(s, "count := swampObj.CountMatchingTreasures(") {
+			if len(f.CallsSuffix(st, ".CountMatchingTreasures")) == 1 {
 				count = i
 			}
-			if s == "swampObj.LockCapMu()" {
+			if es, ok := st.(*ast.ExprStmt); ok && len(f.CallsSuffix(es, ".LockCapMu")) == 1 {
 				lock = i
 			}
 		}
-		locks := len(f.Calls(pc, "swampObj.LockCapMu"))
-		counts := len(f.Calls(pc, "swampObj.CountMatchingTreasures"))
+		locks := len(f.CallsSuffix(pc, ".LockCapMu"))
+		counts := len(f.CallsSuffix(pc, ".CountMatchingTreasures"))
 		retOK := false
 		if len(b) > 0 {
-			retOK = f.Str(b[len(b)-1]) == "return count, swampObj.UnlockCapMu"
+			if r, ok := b[len(b)-1].(*ast.ReturnStmt); ok && len(r.Results) == 2 {
+				retOK = strings.HasSuffix(f.Str(r.Results[1]), ".UnlockCapMu") && len(f.CallsSuffix(pc, ".UnlockCapMu")) == 0
+			}
 		}
 		if count >= 0 && lock >= 0 && locks == 1 && counts == 1 && retOK {
 			order = TriOf(lock < count)
@@ -137,86 +138,177 @@ func c12PatchFields(fs *Facts) {
 			}
 			return true
 		})
+		create := Unknown
 		if capIf != nil {
 			where = c14Where(f, capIf)
 			b := capIf.Body.List
-			ok := len(b) == 4 &&
-				f.Str(b[0]) == "preMatched := false" &&
-				f.Str(b[1]) == "if !isCreate { preMatched = opts.CapPredicate(inputBody) }" &&
-				f.Str(b[2]) == "postMatched := opts.CapPredicate(out)"
+			// the nested `if !pre && post { if budget <= 0 { return CapExceeded }; budget-- }`
+			var cell *ast.IfStmt
+			preInit, preGuarded, preDirect := false, false, false
+			for _, st := range b {
+				switch x := st.(type) {
+				case *ast.AssignStmt:
+					if len(x.Lhs) == 1 && f.Str(x.Lhs[0]) == "preMatched" && len(x.Rhs) == 1 {
+						switch {
+						case f.Str(x.Rhs[0]) == "false":
+							preInit = true
+						case len(f.CallsSuffix(x.Rhs[0], "CapPredicate")) == 1:
+							preDirect = true
+						}
+					}
+				case *ast.IfStmt:
+					if f.Str(x.Cond) == "!isCreate" && x.Else == nil && len(x.Body.List) == 1 {
+						if as, ok := x.Body.List[0].(*ast.AssignStmt); ok && len(as.Lhs) == 1 && f.Str(as.Lhs[0]) == "preMatched" &&
+							len(f.CallsSuffix(as.Rhs[0], "CapPredicate")) == 1 {
+							preGuarded = true
+						}
+					}
+					if f.Str(x.Cond) == "!preMatched && postMatched" {
+						cell = x
+					}
+				}
+			}
+			switch {
+			case preInit && preGuarded && !preDirect:
+				create = Yes
+			case preDirect && !preGuarded:
+				create = No
+			}
+			ok := cell != nil && cell.Else == nil && len(cell.Body.List) == 2
 			if ok {
-				inner, isIf := b[3].(*ast.IfStmt)
-				ok = isIf && f.Str(inner.Cond) == "!preMatched && postMatched" && inner.Else == nil && len(inner.Body.List) == 2 &&
-					f.Str(inner.Body.List[0]) == "if opts.CapBudgetLeft == nil || *opts.CapBudgetLeft <= 0 { return PatchFieldsResult{Status: PatchStatusCapExceeded}, nil }" &&
-					f.Str(inner.Body.List[1]) == "*opts.CapBudgetLeft--"
+				guard, isIf := cell.Body.List[0].(*ast.IfStmt)
+				ok = isIf && strings.Contains(f.Str(guard.Cond), "*opts.CapBudgetLeft <= 0") && len(guard.Body.List) == 1 &&
+					strings.Contains(f.Str(guard.Body.List[0]), "PatchStatusCapExceeded")
+				if ok {
+					_, isDec := cell.Body.List[1].(*ast.IncDecStmt)
+					ok = isDec && strings.Contains(f.Str(cell.Body.List[1]), "CapBudgetLeft")
+				}
 			}
 			// the write happens after the cap block
 			writeAfter := false
 			for _, st := range pf.Body.List {
-				if st.Pos() > capIf.End() && strings.HasPrefix(f.Str(st), "treasureObj.SetContentByteArray(") {
+				if st.Pos() > capIf.End() && len(f.CallsSuffix(st, ".SetContentByteArray")) > 0 {
 					writeAfter = true
 				}
-				if st.Pos() < capIf.Pos() && strings.HasPrefix(f.Str(st), "treasureObj.SetContentByteArray(") {
+				if st.Pos() < capIf.Pos() && len(f.CallsSuffix(st, ".SetContentByteArray")) > 0 {
 					ok = false
 				}
 			}
 			res = TriOf(ok && writeAfter && decs == 1)
 		}
+		fs.Tri("createPreFalse", create, where)
 	}
 	fs.Tri("fourCellNoYes", res, where)
 }
 
+// c12CapMuGuard looks for `if capPredicate != nil { s.capMu.Lock(); [defer s.capMu.Unlock()] }` at the top level of fn.
+func c12CapMuGuard(f *File, fn *ast.FuncDecl) (lockIdx int, deferred bool) {
+	lockIdx = -1
+	for i, st := range fn.Body.List {
+		is, ok := st.(*ast.IfStmt)
+		if !ok || f.Str(is.Cond) != "capPredicate != nil" {
+			continue
+		}
+		hasLock, hasDefer := false, false
+		for _, b := range is.Body.List {
+			if es, ok := b.(*ast.ExprStmt); ok && f.Str(es.X) == "s.capMu.Lock()" {
+				hasLock = true
+			}
+			if d, ok := b.(*ast.DeferStmt); ok && f.Str(d.Call) == "s.capMu.Unlock()" {
+				hasDefer = true
+			}
+		}
+		if hasLock && lockIdx < 0 {
+			lockIdx, deferred = i, hasDefer
+		}
+	}
+	return
+}
+
 func c12Others(fs *Facts) {
 	f, err := Load(c12SwampExpired)
-	pe := Unknown
+	pe, holds := Unknown, Unknown
 	where := c12SwampExpired
 	if err == nil {
 		if fn := f.Func("swamp", "PatchExpired"); fn != nil {
 			where = c14Where(f, fn)
-			lockPos, selPos := -1, -1
+			lockPos, deferred := c12CapMuGuard(f, fn)
+			selPos := -1
 			for i, st := range fn.Body.List {
-				s := f.Str(st)
-				if s == "if capPredicate != nil { s.capMu.Lock() defer s.capMu.Unlock() }" {
-					lockPos = i
-				}
-				if strings.Contains(s, "SelectExpiredForPatchWithCap(") && selPos < 0 {
+				if len(f.CallsSuffix(st, ".SelectExpiredForPatchWithCap")) > 0 && selPos < 0 {
 					selPos = i
 				}
 			}
 			if lockPos >= 0 && selPos >= 0 {
 				pe = TriOf(lockPos < selPos)
 			}
+			explicit := 0
+			ast.Inspect(fn, func(n ast.Node) bool {
+				if es, ok := n.(*ast.ExprStmt); ok && f.Str(es.X) == "s.capMu.Unlock()" {
+					explicit++
+				}
+				return true
+			})
+			switch {
+			case lockPos >= 0 && deferred && explicit == 0:
+				holds = Yes
+			case lockPos >= 0 && !deferred && explicit > 0:
+				holds = No
+			}
 		}
 	} else {
 		fs.Err("%v", err)
 	}
 	fs.Tri("patchExpiredLocksFirst", pe, where)
+	fs.Tri("expiredHoldsCapMu", holds, where)
 
 	g, err := Load(c12Beacon)
-	sm := Unknown
+	sel, sm := Unknown, Unknown
 	where = c12Beacon
+	// count + budget + bounded selection under one b.mu.Lock()
+	bounded := func(fn *ast.FuncDecl, bound string) bool {
+		lock, budget, use := -1, -1, -1
+		for i, st := range fn.Body.List {
+			s := g.Str(st)
+			if s == "b.mu.Lock()" && lock < 0 {
+				lock = i
+			}
+			if s == "b.mu.Unlock()" && use < 0 {
+				return false
+			}
+			if strings.Contains(s, "budget := capMax - currentMatching") && budget < 0 {
+				budget = i
+			}
+			if strings.Contains(s, bound) && use < 0 && budget >= 0 {
+				use = i
+			}
+		}
+		return lock >= 0 && budget > lock && use > budget
+	}
 	if err == nil {
+		if fn := g.Func("beacon", "SelectExpiredForPatchWithCap"); fn != nil {
+			where = c14Where(g, fn)
+			sel = TriOf(bounded(fn, "counter < effectiveHowMany") && g.Contains(fn, "if budget < effectiveHowMany { effectiveHowMany = budget"))
+		}
+		fs.Tri("expiredSelectWithinBudget", sel, where)
 		if fn := g.Func("beacon", "ShiftMatching"); fn != nil {
 			where = c14Where(g, fn)
-			lock, unlockEarly, capUse := -1, false, -1
-			for i, st := range fn.Body.List {
-				s := g.Str(st)
-				if s == "b.mu.Lock()" && lock < 0 {
-					lock = i
-				}
-				if strings.Contains(s, "capPredicate(t)") && capUse < 0 {
-					capUse = i
-				}
-				if s == "b.mu.Unlock()" && capUse < 0 && lock >= 0 {
-					unlockEarly = true
-				}
-			}
-			if lock >= 0 && capUse >= 0 {
-				sm = TriOf(lock < capUse && !unlockEarly)
-			}
+			sm = TriOf(bounded(fn, "counter < effectiveHowMany") && g.Contains(fn, "if budget < effectiveHowMany { effectiveHowMany = budget"))
 		}
 	} else {
 		fs.Err("%v", err)
+		fs.Tri("expiredSelectWithinBudget", Unknown, where)
+	}
+	// the swamp-level shift holds capMu for the whole call
+	if sw, err := Load("app/core/hydra/swamp/swamp.go"); err == nil {
+		if fn := sw.Func("swamp", "CloneAndDeleteMatchingTreasures"); fn != nil {
+			lockPos, deferred := c12CapMuGuard(sw, fn)
+			if !(lockPos >= 0 && deferred) && sm == Yes {
+				sm = No
+			}
+		} else {
+			sm = Unknown
+		}
 	}
 	fs.Tri("shiftCountsUnderLock", sm, where)
 }
